@@ -438,6 +438,9 @@ func TestReplay(t *testing.T) {
 	if !ok {
 		t.Skip("no replay file")
 	}
+	if cf.Test == "TestKVInvalidInStream" {
+		t.Skip("replayed by TestKVInvalidInStream")
+	}
 	var c Case
 	if err := json.Unmarshal(cf.Case, &c); err != nil {
 		t.Fatal(err)
